@@ -5,9 +5,10 @@ CONSTANT KNOWN
 Trace == ndJsonDeserialize("trace.ndjson")
 VARIABLES l, viol, hist, sel, rep, cap,
           reported,   \* inferred: reporters that have had a report accepted in this history
-          lastCount   \* inferred: selector -> [rep, t] of the last accepted report that counted its stake
-tvars == <<l, viol, hist, sel, rep, cap, reported, lastCount>>
-Init == l = 1 /\ viol = {} /\ hist = 0 /\ sel = <<>> /\ rep = <<>> /\ cap = 0 /\ reported = {} /\ lastCount = <<>>
+          lastCount,  \* inferred: selector -> [rep, t] of the last accepted report that counted its stake
+          removed     \* inferred: selectors taken out of their selection by RemoveSelector in this history
+tvars == <<l, viol, hist, sel, rep, cap, reported, lastCount, removed>>
+Init == l = 1 /\ viol = {} /\ hist = 0 /\ sel = <<>> /\ rep = <<>> /\ cap = 0 /\ reported = {} /\ lastCount = <<>> /\ removed = {}
 
 UnbondingMs == N(1814400000)   \* 21 days: the window inside which stake must not serve two reporters
 
@@ -19,9 +20,13 @@ CheckSubmit(e) ==
        \cup (IF "origins" \in DOMAIN e /\ OriginsMatch(e.seltok, e.t, e.origins.origins) /\ e.origins.total.mag = StakeOf(e.seltok, e.t)
              THEN {} ELSE {"StoredOriginsAreTheCountedStake"})
        \cup (IF e.who \in DOMAIN rep /\ rep[e.who].jailed THEN {"JailedReporterCannotReport"} ELSE {})
-       \cup (IF \E s \in CountedSels(e) : s \in DOMAIN lastCount /\ lastCount[s].rep # e.who
-                                          /\ (e.t -- lastCount[s].t) \prec UnbondingMs
-             THEN {"SameStakeServesTwoReportersWithinWindow"} ELSE {})
+       \* Dev_F25 (open): RemoveSelector deletes the selection record, and with it the only trace of the stake having been
+       \* counted; the removed account can join or become a reporter at once.  Identity: every offending selector was removed
+       \* by RemoveSelector earlier in this history.
+       \cup (LET Off == { s \in CountedSels(e) : s \in DOMAIN lastCount /\ lastCount[s].rep # e.who /\ (e.t -- lastCount[s].t) \prec UnbondingMs } IN
+             IF Off = {} THEN {}
+             ELSE IF "F-25" \in KNOWN /\ Off \subseteq removed THEN {"KNOWN:F-25"}
+             ELSE {"SameStakeServesTwoReportersWithinWindow"})
 
 PostSel(e) == e.post.reporter.selectors
 PostRep(e) == e.post.reporter.reporters
@@ -70,6 +75,7 @@ Step ==
                         THEN [s \in (DOMAIN lastCount) \cup CountedSels(e) |->
                                 IF s \in CountedSels(e) THEN [rep |-> e.who, t |-> e.t] ELSE lastCount[s]]
                         ELSE lastCount
+        /\ removed' = IF reset THEN {} ELSE IF e.ev = "RemoveSelector" /\ e.ok THEN removed \cup {e.sel} ELSE removed
         /\ viol' = IF reset THEN viol ELSE AddViol(viol, l, Check(e))
         /\ l' = l + 1
 Spec == Init /\ [][Step]_tvars
